@@ -313,11 +313,17 @@ class SyncModel:
         return out
 
     def fsync_id(self, body, op):
+        """identity of a background fsyncer: the field that holds it (the innermost named field on the way to the receiver;
+        `sync.bbn_fsync`, or `sync.fsyncers.bbn` when the two are grouped in a struct)"""
+        best = None
         for r in xtrace(self.facts, body, op, depth=4):
-            for (f, o) in reversed(r.path):
-                if "fsync" in f:
-                    return ("fsync", o, f)
-        return ("fsync", "?", "?")
+            named = [(f, o) for (f, o) in r.path if f and not f.isdigit() and not f.startswith("<") and o and (o.startswith("nomt::") or o.startswith("<nomt::"))]
+            if named:
+                (f, o) = named[-1]
+                cand = ("fsync", o, f)
+                if best is None or "fsync" in f or any(k in f for k in ("ln", "bbn")):
+                    best = cand
+        return best or ("fsync", "?", "?")
 
     # ---- io families ---------------------------------------------------------------------
     def family(self, body, op):
